@@ -77,9 +77,26 @@ TimerFlush ==
 (* loopFlush *)
 FlushBegin == /\ infl = <<>> /\ flushQ # <<>>
               /\ infl' = <<Head(flushQ)>> /\ flushQ' = Tail(flushQ)
-              /\ disk' = disk \cup {Id(e) : e \in Range(Head(flushQ).data)}
+              /\ dlog' = dlog \o Head(flushQ).data          \* readable from disk from now on
 FlushEnd == /\ infl # <<>>
             /\ lft' = infl[1].stop /\ infl' = <<>>
+            /\ disk' = disk \cup {Id(e) : e \in Range(infl[1].data)}   \* layer A: this flush has completed
+
+(* Shutdown followed by the flusher finishing everything: the current buffer is rotated
+   if it holds anything, every queued buffer reaches the disk, lastFlushTime is that of the last *)
+RECURSIVE AllData(_)
+AllData(q) == IF q = <<>> THEN <<>> ELSE Head(q).data \o AllData(Tail(q))
+Quiesce ==
+  LET s == Seal(cur.start, cur.stop, cur.buf, cur.pos)
+      q1 == IF cur.pos > 0 THEN Append(flushQ, FlushItem(cur.start)) ELSE flushQ
+      rest == AllData(q1)
+  IN /\ sealed' = IF cur.pos > 0 THEN s.sealed ELSE sealed
+     /\ cur' = IF cur.pos > 0 THEN [buf |-> s.ret, pos |-> 0, start |-> 0, stop |-> 0] ELSE cur
+     /\ flushQ' = <<>> /\ infl' = <<>>
+     /\ dlog' = dlog \o rest
+     /\ disk' = disk \cup {Id(e) : e \in Range(rest)} \cup (IF infl # <<>> THEN {Id(e) : e \in Range(infl[1].data)} ELSE {})
+     /\ lft' = IF q1 # <<>> THEN q1[Len(q1)].stop ELSE IF infl # <<>> THEN infl[1].stop ELSE lft
+     /\ UNCHANGED <<lastTsNs, mem, log>>
 
 (* dlog = what is on disk, in flush order: the entries handed to flushFn so far
    (the layer-A ghost disk only has their ids) *)
@@ -165,9 +182,9 @@ Next ==
           /\ Log([ev |-> "append", id |-> Len(log) + 1, req |-> lastTsNs + d])
           /\ UNCHANGED <<sub, disk, dlog, infl, lft, rs>>
      \/ TimerFlush /\ Log([ev |-> "tflush"]) /\ UNCHANGED <<sub, disk, dlog, infl, lft, rs>>
-     \/ /\ FlushBegin /\ dlog' = dlog \o Head(flushQ).data /\ Log([ev |-> "fl1"])
-        /\ UNCHANGED <<log, sub, lastTsNs, cur, mem, sealed, lft, rs>>
-     \/ FlushEnd /\ Log([ev |-> "fl2"]) /\ UNCHANGED <<log, sub, disk, dlog, lastTsNs, cur, mem, sealed, flushQ, rs>>
+     \/ /\ FlushBegin /\ Log([ev |-> "fl1"])
+        /\ UNCHANGED <<log, sub, disk, lastTsNs, cur, mem, sealed, lft, rs>>
+     \/ FlushEnd /\ Log([ev |-> "fl2"]) /\ UNCHANGED <<log, sub, dlog, lastTsNs, cur, mem, sealed, flushQ, rs>>
      \/ \E r \in Readers, t0 \in 0..(lastTsNs + 1) :
           /\ \A q \in Readers : q < r => rs[q].pc # "off"        \* readers are interchangeable: start them in order
           /\ StartReader(r, t0) /\ Log([ev |-> "start", r |-> r, t0 |-> t0])
